@@ -655,11 +655,11 @@ theorem v5beta_unverifiable_before_fix (verify : List UInt8 → List UInt8 → L
 
 /-! ### outgoing messages and the state init they carry -/
 
-/-- `ToInternal` + marshalling of a requested message (32-byte address, `uint64` amount) never overflows a cell and
+/-- `ToInternal` + marshalling of a requested message (32-byte address, `uint64` amount, no extra currencies) never overflows a cell and
 returns the written-out layout: the state init is attached, by reference, exactly when code AND data are given. -/
-theorem internal_message_layout (m : OutMsg) (hh : m.dest.hash.length = 32) (ha : m.amount < 2 ^ 64) :
+theorem internal_message_layout (m : OutMsg) (hh : m.dest.hash.length = 32) (ha : m.amount < 2 ^ 64) (hx : m.extra = []) :
     internalMsg m = .ok (internalLayout m) ∧ (internalLayout m).refs.length = m.init.toList.length + m.body.toList.length := by
-  refine ⟨internalMsg_ok m hh ha, ?_⟩
+  refine ⟨internalMsg_ok m hh ha hx, ?_⟩
   simp [internalLayout, Cell.ordinary, Cell.refs]
   cases m.body <;> simp
 
@@ -708,8 +708,8 @@ theorem deploy_address_is_carried_init_hash (hlen : ∀ x, (H x).length = 32) (w
       rw [← hh]; simp [stateInitCell, Cell.ordinary, Cell.hashO, hlen]
     · simp at hh
   obtain ⟨x, hx, _, hcell, hcode, hdata, _, _, hdest⟩ :=
-    carried_init_is_requested ⟨true, ⟨wc, h⟩, amount, body, some c, some d, 3⟩ c d rfl rfl hl ha hdep
-  exact ⟨internalMsg_ok _ hl ha, rfl, x, _, hx, hcell, hcode, hdata, hh, hdest⟩
+    carried_init_is_requested ⟨true, ⟨wc, h⟩, amount, body, some c, some d, 3, []⟩ c d rfl rfl hl ha hdep
+  exact ⟨internalMsg_ok _ hl ha rfl, rfl, x, _, hx, hcell, hcode, hdata, hh, hdest⟩
 
 /-- Only one of code / data: `ContractDeploy` refuses. -/
 theorem deploy_needs_code_and_data (wc : Int) (code data body : Option Cell) (amount : Nat) (h : code = none ∨ data = none) :
